@@ -26,7 +26,7 @@ type hangState struct {
 	replay  bool
 }
 
-var hang = &hangState{limit: 90 * time.Second}
+var hang = &hangState{limit: 240 * time.Second}
 
 func (h *hangState) begin(sc *Scenario) {
 	h.sc.Store(sc)
@@ -108,6 +108,9 @@ func (h *hangState) watch() {
 
 // installShardWatchdog wires the watchdog to a shard's report.
 func installShardWatchdog(env *ShardEnv, rep **ShardReport, reportPath string) {
+	if env.Tier == "thorough" {
+		hang.limit = 900 * time.Second // the largest thorough-tier runs on a loaded machine take a while
+	}
 	if v := envInt("VERIF_HANG_S", 0); v > 0 {
 		hang.limit = time.Duration(v) * time.Second
 	}
